@@ -42,6 +42,7 @@ class Unit:
     name: str  # "cvrp"
     run: Callable[["Ctx"], None]
     lean_modules: List[str] = dataclasses.field(default_factory=list)
+    drivers: List[str] = dataclasses.field(default_factory=list)  # driver executables used, e.g. ["drv_cvrp"]
     theorems: List[Theorem] = dataclasses.field(default_factory=list)
     # optional deeper search for a failing input, used when a tie is broken
     search: Optional[Callable[["Ctx"], None]] = None
